@@ -212,7 +212,8 @@ def _random_set(draw):
         # a set that carries parameter uncertainties and rate uncertainties (the uncertainty branch of T + epoch)
         sd = draw(TR.random_sd7())
         sdr = [v * 0.1 for v in draw(TR.random_sd7())]
-    return {"p": p, "rates": rates, "epoch": list(ep), "from": lab[0], "to": lab[1], "sd": sd, "sdr": sdr, "pnum": draw(TR.pnum_kind)}
+    return {"p": p, "rates": rates, "epoch": list(ep), "from": lab[0], "to": lab[1], "sd": sd, "sdr": sdr, "pnum": draw(TR.pnum_kind),
+            "epoch_cls": draw(st.sampled_from(["date", "date", "date", "subclass"]))}
 
 
 _vcv_opt = st.one_of(st.none(), st.none(), TR.psd3())
